@@ -172,6 +172,7 @@ func drawBlock(t *rapid.T, big bool) synth.BlockSpec {
 		b.ExtraCL = rapid.SampledFrom([]int{0, 0, 1, 4, 19}).Draw(t, "xcl")
 		b.FreqSort = rapid.Bool().Draw(t, "freqsort")
 		b.Fork = rapid.SampledFrom([]int{0, 0, 0, 3, 6, 8, 9, 10, 11, 12, 13}).Draw(t, "fork")
+		b.Alt258 = rapid.IntRange(0, 3).Draw(t, "alt258") == 0
 	}
 	return b
 }
@@ -235,7 +236,7 @@ func drawValidStream(t *rapid.T, max int) StreamSpec {
 	}
 }
 
-var faultKinds = []string{synth.FDistTooFar, synth.FDistTooFar, synth.FUnassignedDist, synth.FNoDistCode, synth.FOverLit, synth.FOverDist, synth.FOverCL,
+var faultKinds = []string{synth.FDistTooFar, synth.FDistTooFar, synth.FIncompleteDist, synth.FIncompleteDist, synth.FUnassignedDist, synth.FNoDistCode, synth.FOverLit, synth.FOverDist, synth.FOverCL,
 	synth.FIncompleteLit, synth.FMissingEOB, synth.FRepeatFirst, synth.FRunPast, synth.FStoredLen, synth.FReserved, synth.FBadLenSym, synth.FBadDistSym, synth.FHLIT}
 
 // drawFaultyStream draws a synthesised stream with one injected fault.
@@ -248,6 +249,17 @@ func drawFaultyStream(t *rapid.T) StreamSpec {
 		f.At = rapid.IntRange(0, 3).Draw(t, "fatsmall")
 	}
 	f.Arg = rapid.SampledFrom([]int{0, 0, 1, 2, 7, 100, 30000}).Draw(t, "farg")
+	if f.Kind == synth.FIncompleteDist && f.Block > 0 {
+		// the block before gets a deep complete distance code (what a stale table would hold)
+		p := &s.Blocks[f.Block-1]
+		p.Type, p.ExtraDist, p.DistCode, p.Fork, p.Rep = 2, 30, 2, 12, 0
+		if p.N < 50 {
+			p.N = 50
+		}
+		if p.MatchPct < 30 {
+			p.MatchPct = 30
+		}
+	}
 	s.Fault = f
 	s.Tail = rapid.SampledFrom([]int{0, 8, 100, 600, 600, 5000}).Draw(t, "tail")
 	return StreamSpec{Kind: "synth", Synth: s}
